@@ -285,5 +285,7 @@ def check(run, fx, tier, floors=True):
         t05_order(run, fx)
     if floors or fx.adt("context::IgnoreMarks") is not None:
         rules_C04.t04_marks(run, fx)
+    if floors or fx.body("layout::ClassDef::glyph_class_value") is not None:
+        rules_C04.t04_cls0(run, fx, floors)
     if floors or any(b.root.endswith("::glyph_positions") for b in fx.bodies):
         t05_ord(run, fx)
